@@ -47,7 +47,7 @@ func init() {
 		RequiredProbes: []string{"deposit.noop-replay", "reject.l2deposit.sequence-ahead", "reject.auth.finalize-deposit"}})
 
 	c09 := &l2Profile{Prop: "C09", Reimport: 2, Blocks: [2]int{10, 50}, MaxTx: 5, Crash: 5, DepFault: 5, GasAbort: 4, Hooks: 20, BadRcpt: 20,
-		W:       map[string]int{"relay": 40, "relaybatch": 4, "withdraw": 35, "send": 15, "params": 2},
+		W:       map[string]int{"relay": 40, "relaybatch": 4, "withdraw": 35, "send": 15, "params": 2, "bridgeinfo": 2},
 		NonTriv: func(w *l2World) bool { return w.succ["withdraw"] >= 1 && w.m.NextL1Seq >= 3 }}
 	core.Register(&core.Scenario{ID: "C09", Level: "exploration", Run: runL2(c09), Components: l2Components, Assumptions: l2Assume,
 		Rule:      "seeded histories of credited and refunded deposits, transfers and withdrawal attempts by any account (below / at / above balance; bridged, native and unknown denoms; a later deposit naming another base denom for a known L2 denom) with crash/restart and dependency faults on burn/send; oracle: supply(d) = credited - withdrawn after every block, exact debit of the signer, one gap-free L2 sequence shared by user and refund withdrawals, immutable denom mapping; non-trivial = >=1 successful withdrawal and >=2 processed deposits",
